@@ -22,5 +22,7 @@ structure Env (α : Type) where
   R : α
   /-- `x == 0` : a number is falsy in Python exactly when it is zero -/
   isZero : α → Bool
+  /-- `a <= b` -/
+  le : α → α → Bool
 
 end ThermoVerif.FreeEnergy
